@@ -58,6 +58,9 @@ PROBES = [
     ('func-name-contents', '__func__ is an array holding the function name and its terminating null character',
      'void out_l(long);\nint len(const char *s) { int n = 0; while (s[n]) n++; return n; }\nint longer_name_here(void) { return len(__func__) * 100 + sizeof __func__; }\n'
      'int main(void)\n{\n\tconst char *p = __func__;\n\tout_l(len(p));\n\tout_l(p[4]);\n\tout_l(sizeof __func__);\n\tout_l(longer_name_here());\n\tout_l(__func__[0] + __func__[3]);\n\treturn 0;\n}\n'),
+    ('negative-zero-conditions', 'negative zero is false: as a constant ?: condition, as an if/while condition, as an operand of ! && ||',
+     'void out_l(long);\nint n;\nint bump(void) { return ++n; }\ndouble nz = -0.0;\nint main(void)\n{\n\tout_l(-0.0 ? 10 : 20);\n\tout_l((0.0 * -1) ? 1 : 2);\n\tout_l(-0.0f ? bump() : 5);\n\tout_l(n);\n'
+     '\tout_l(nz ? 3 : 4);\n\tif (-0.0)\n\t\tout_l(-1);\n\tif (nz)\n\t\tout_l(-2);\n\tout_l(!nz);\n\tout_l(!-0.0);\n\tout_l(nz || 0);\n\tout_l(-0.0 && bump());\n\tout_l(n);\n\twhile (-nz * 0)\n\t\tout_l(-3);\n\tout_l((_Bool)nz + (_Bool)-0.0f);\n\treturn 0;\n}\n'),
     ('switch-insertion-orders', 'a switch reaches exactly the matching case whatever the order of its labels (every AVL rotation shape)',
      'void out_l(long);\n' + ''.join(
          'long sw%d(long v)\n{\n\tswitch (v) {\n%s\tdefault: return -1;\n\t}\n}\n' % (k, ''.join('\tcase %d: return %d;\n' % (c, c * 3 + k) for c in order))
